@@ -206,6 +206,52 @@ func genC02OpsSeed(t *rapid.T, maxOps int, kinds []string, seedFn func(*mtree)) 
 		return rapid.SampledFrom(all).Draw(t, label)
 	}
 	var ops []c02Op
+	emit := func(op c02Op) {
+		if v := modelVerdict(m, op); v.exp == expOK {
+			v.apply()
+		}
+		ops = append(ops, op)
+	}
+	// Structured prefix (fresh trees only, one history in five): two directories with a grandchild of the same relative
+	// name but of different kinds are visited (so that whatever is cached about them is cached), the first directory is
+	// renamed away and the second renamed into its place, and the old paths are visited again. What is cached two and
+	// more levels below a renamed directory has to go with it.
+	if seedFn == nil && hasKind(kinds, "rename") && rapid.IntRange(0, 4).Draw(t, "swap") == 0 {
+		perm := rapid.Permutation(c02Names).Draw(t, "swapnames")
+		p1, p2, p3 := perm[0], perm[1], perm[2]
+		sub, leaf := rapid.SampledFrom(c02Names).Draw(t, "swapsub"), rapid.SampledFrom(c02Names).Draw(t, "swapleaf")
+		kindsOf := rapid.Permutation([]string{"create", "mkdir", "symlink"}).Draw(t, "swapkinds")
+		mkLeaf := func(dir, kind string) c02Op {
+			op := c02Op{Kind: kind, Dir: dir, Name: leaf}
+			if kind == "symlink" {
+				op.Target = "nowhere"
+			}
+			return op
+		}
+		for i, top := range []string{p1, p2} {
+			emit(c02Op{Kind: "mkdir", Dir: "/", Name: top})
+			emit(c02Op{Kind: "mkdir", Dir: "/" + top, Name: sub})
+			emit(mkLeaf("/"+top+"/"+sub, kindsOf[i]))
+		}
+		visit := func() {
+			d := "/" + p1 + "/" + sub
+			for _, k := range rapid.SliceOfN(rapid.SampledFrom([]string{"lookup", "getattr", "readdirplus", "readdir", "lookupsub"}), 1, 4).Draw(t, "swapvisit") {
+				switch k {
+				case "lookup", "getattr":
+					emit(c02Op{Kind: k, Dir: d, Name: leaf})
+				case "lookupsub":
+					emit(c02Op{Kind: "lookup", Dir: "/" + p1, Name: sub})
+				default:
+					emit(c02Op{Kind: k, Dir: d})
+				}
+			}
+		}
+		visit()
+		emit(c02Op{Kind: "rename", Dir: "/", Name: p1, Dir2: "/", Name2: p3})
+		emit(c02Op{Kind: "rename", Dir: "/", Name: p2, Dir2: "/", Name2: p1})
+		emit(c02Op{Kind: "lookup", Dir: "/" + p1 + "/" + sub, Name: leaf})
+		visit()
+	}
 	for i := 0; i < n; i++ {
 		op := c02Op{Kind: rapid.SampledFrom(kinds).Draw(t, "kind")}
 		op.Dir = pickDir("dir")
@@ -407,6 +453,28 @@ func (c *nsClient) exec(op c02Op) *nsViolation {
 	switch op.Kind {
 	case "getattr", "readlink", "setattr", "write", "read", "access":
 		addr = op.objPath()
+	}
+	// A handle kept from earlier whose path now runs through a symbolic link in one of its ancestor components
+	// (the ancestor was renamed away and a link put in its place): handles are bound to paths, and POSIX path
+	// resolution follows such a link, so the backend answers for the object behind the link. Neither answer can be
+	// called wrong against a POSIX-like model; the request is not sent.
+	crosses := func(p string) bool {
+		if _, held := c.held[p]; !held {
+			return false
+		}
+		cs := comps(p)
+		cur := "/"
+		for i := 0; i+1 < len(cs); i++ {
+			cur = path.Join(cur, cs[i])
+			if n := c.m.get(cur); n != nil && n.kind == 'l' {
+				return true
+			}
+		}
+		return false
+	}
+	if crosses(addr) || op.Kind == "rename" && crosses(op.Dir2) {
+		c.labels["skipped_kept_handle_path_crosses_symlink"] = true
+		return nil
 	}
 	fh, mm, viol := c.handleFor(addr)
 	if viol != nil {
